@@ -300,6 +300,8 @@ fn main() {
     }
     let code = match property.as_str() {
         "C22" | "C35" => run_c22(&tier, &property, &mut out),
+        "C15" => vmc::c15::run(&tier, &mut out),
+        "C23" => vmc::c23::run(&tier, &mut out),
         _ => {
             let _ = writeln!(out, "MACHINERY-ERROR unknown property {property} for smmc");
             2
